@@ -284,6 +284,20 @@ HexAddCellRel(pre, hfs, post, ret) ==
        /\ WellFormed(post)
        /\ ClosedSurface(post, At(post.cells, ret))
        /\ HexConvention(post, ret)
+(* C11: add_cell(halffaces, check) of the hexahedral kernel is accepted iff   *)
+(* six quads and (with topology check) a closed surface; accepted => exactly *)
+(* one cell appended whose halffaces are the given ones (re-ordered only     *)
+(* under topology check); rejected => invalid handle, nothing changed        *)
+HexAddCellC11(pre, c, post, ret) ==
+  LET l == c.l
+      accept == /\ Len(l) = 6 /\ \A i \in 1 .. 6 : Len(At(pre.faces, Full(l[i]))) = 4
+                /\ c.f => ClosedSurface(pre, l)
+  IN IF accept
+     THEN /\ ret = Len(pre.cells) /\ Len(post.cells) = Len(pre.cells) + 1
+          /\ AppendRel(pre, post, "C", post.cells[Len(post.cells)])
+          /\ IF c.f THEN SameBag(post.cells[Len(post.cells)], l) ELSE post.cells[Len(post.cells)] = l
+     ELSE ret = -1 /\ Unchanged(pre, post)
+
 (* add_cell(8 vertices): accepted => one more cell, closed, obeying the     *)
 (* convention, on exactly the given vertices; nothing that lived is gone    *)
 HexAddCellVRel(pre, vs, post, ret) ==
